@@ -73,3 +73,36 @@ package bfe_route
 //@   ensures[then_the_vip_of_the_connection] !hit && vipHit ==> result0 == nil && req.Route.Product == t.vipTable[ipString(req.Session.Vip)] && req.Route.HostTag == ""
 //@   ensures[then_the_default_product] !hit && !vipHit && t.defaultProduct != "" ==> result0 == nil && req.Route.Product == t.defaultProduct && req.Route.HostTag == ""
 //@   ensures[otherwise_rejected_without_a_product] !hit && !vipHit && t.defaultProduct == "" ==> result0 == ErrNoProduct && req.Route.Product == "" && req.Route.HostTag == ""
+
+// ---- C13: an accepted server configuration only references products and clusters that exist;
+// a configuration that does (basic rules may name ADVANCED_MODE) is accepted ----
+
+//@ spec productKnown(t *HostTable, p string) bool := exists g string :: has(t.hostTagTable, g) && t.hostTagTable[g] == p
+
+//@ func (*ClusterTable).Lookup
+//@   props C13
+//@   nopanic
+//@   requires t != nil
+//@   modifies nothing
+//@   ensures[found_iff_the_cluster_is_configured] (result1 == nil) == has(t.clusterTable, clusterName)
+
+//@ func (*ServerDataConf).check
+//@   props C13
+//@   nopanic nil,index
+//@   requires s != nil && s.HostTable != nil && s.ClusterTable != nil
+//@   modifies nothing
+//@   let ht := s.HostTable
+//@   let ct := s.ClusterTable.clusterTable
+//@   ensures[products_with_advanced_rules_exist] result0 == nil ==> (forall p string :: has(ht.productAdvancedRouteTable, p) ==> productKnown(ht, p))
+//@   ensures[products_with_basic_rules_exist] result0 == nil ==> (forall p string :: has(ht.productBasicRouteTree, p) ==> productKnown(ht, p))
+//@   ensures[clusters_of_advanced_rules_exist] result0 == nil ==> (forall p string :: forall k int :: has(ht.productAdvancedRouteTable, p) && 0 <= k && k < len(ht.productAdvancedRouteTable[p]) ==> has(ct, ht.productAdvancedRouteTable[p][k].ClusterName))
+//@   ensures[clusters_of_basic_rules_exist_or_defer_to_the_advanced_rules] result0 == nil ==> (forall p string :: forall k int :: has(ht.productBasicRouteTable, p) && 0 <= k && k < len(ht.productBasicRouteTable[p]) ==> ht.productBasicRouteTable[p][k].ClusterName == "ADVANCED_MODE" || has(ct, ht.productBasicRouteTable[p][k].ClusterName))
+//@   ensures[a_closed_configuration_is_accepted] (forall p string :: has(ht.productAdvancedRouteTable, p) ==> productKnown(ht, p)) && (forall p string :: has(ht.productBasicRouteTree, p) ==> productKnown(ht, p)) && (forall p string :: forall k int :: has(ht.productAdvancedRouteTable, p) && 0 <= k && k < len(ht.productAdvancedRouteTable[p]) ==> has(ct, ht.productAdvancedRouteTable[p][k].ClusterName)) && (forall p string :: forall k int :: has(ht.productBasicRouteTable, p) && 0 <= k && k < len(ht.productBasicRouteTable[p]) ==> ht.productBasicRouteTable[p][k].ClusterName == "ADVANCED_MODE" || has(ct, ht.productBasicRouteTable[p][k].ClusterName)) ==> result0 == nil
+//@   loop 1 invariant forall p string :: visited(p) && has(ht.productAdvancedRouteTable, p) ==> productKnown(ht, p)
+//@   loop 2 invariant (find ==> productKnown(ht, product1)) && (!find ==> (forall g string :: visited(g) && has(ht.hostTagTable, g) ==> ht.hostTagTable[g] != product1))
+//@   loop 3 invariant (forall p string :: has(ht.productAdvancedRouteTable, p) ==> productKnown(ht, p)) && (forall p string :: visited(p) && has(ht.productBasicRouteTree, p) ==> productKnown(ht, p))
+//@   loop 4 invariant (find ==> productKnown(ht, product1)) && (!find ==> (forall g string :: visited(g) && has(ht.hostTagTable, g) ==> ht.hostTagTable[g] != product1))
+//@   loop 5 invariant forall p string :: visited(p) && has(ht.productAdvancedRouteTable, p) ==> (forall k int :: 0 <= k && k < len(ht.productAdvancedRouteTable[p]) ==> has(ct, ht.productAdvancedRouteTable[p][k].ClusterName))
+//@   loop 6 invariant forall k int :: 0 <= k && k <= rangeindex ==> has(ct, routeRules[k].ClusterName)
+//@   loop 7 invariant forall p string :: visited(p) && has(ht.productBasicRouteTable, p) ==> (forall k int :: 0 <= k && k < len(ht.productBasicRouteTable[p]) ==> ht.productBasicRouteTable[p][k].ClusterName == "ADVANCED_MODE" || has(ct, ht.productBasicRouteTable[p][k].ClusterName))
+//@   loop 8 invariant forall k int :: 0 <= k && k <= rangeindex ==> routeRules[k].ClusterName == "ADVANCED_MODE" || has(ct, routeRules[k].ClusterName)
